@@ -37,7 +37,7 @@ func VxUseLimitNeverOnBatchTokens() {
 	te := vxCreated
 	// a use-limited token spends its uses on requests; it must never be able to turn one of them into a token that is
 	// not bound by the limit - whatever the endpoint (create, create-orphan, role with orphan=true, no_parent)
-	vxAssert("a use-limited token never mints a token (child or orphan)", vxParent.NumUses <= 0)
+	vxAssert("a use-limited token never mints a token (child or orphan) - not with uses left and not on its last use (use count already negative: awaiting revocation)", vxParent.NumUses == 0)
 	if te.Parent == "" {
 		vxReach("use limit: orphan token created")
 	}
